@@ -305,6 +305,11 @@ func (ep *episode) judge() {
 		if !j.Returned {
 			set("no-return", fmt.Sprintf("job %d did not return", j.ID))
 		}
+		if sc.Prop == "C15" {
+			for _, n := range j.Notices {
+				res.Notices = append(res.Notices, Check{Class: n.Class, Msg: fmt.Sprintf("job %d: %s", j.ID, n.Msg)})
+			}
+		}
 		switch sc.Prop {
 		case "C11", "C13", "C15":
 			if j.AtReturn != nil && !j.AtReturn.OK {
@@ -433,7 +438,7 @@ func (ep *episode) prepare(j *Job, jres *JobResult) (*jobRun, error) {
 	case "script2":
 		items := genLines(j.N, j.Coords, j.CoordSeed)
 		r := &script2{jid: jr.jid, batches: splitBatches(items, j.Batches)}
-		jr.state = sinkState{sink: j.Sink, lines: items, ordered: len(j.Batches) <= 1}
+		jr.state = sinkState{sink: j.Sink, lines: items, ordered: len(j.Batches) <= 1, exactDXF: ep.sc.Prop == "C15"}
 		jres.Items = len(items)
 		return jr, ep.bind2(jr, nil, r, faulty)
 	case "mcu", "mco", "dc3v2", "dc3v1":
@@ -582,6 +587,9 @@ func (ep *episode) bind2(jr *jobRun, s sdf.SDF2, r render.Render2, faulty bool) 
 		}
 		c := jr.state.check()
 		*dst = &c
+		if dst == &jr.res.AtReturn {
+			jr.res.Notices = append(jr.res.Notices, jr.state.notices...)
+		}
 	}
 	switch j.Sink {
 	case "dxf":
@@ -630,6 +638,10 @@ func (ep *episode) compareBatchSTL(jr *jobRun) {
 		jr.res.AtReturn = &c
 		return
 	}
+	if c := ep.asciiRoundTrip(jr); !c.OK {
+		jr.res.AtReturn = &c
+		return
+	}
 	for _, p := range []string{jr.state.path, p2} {
 		mesh, err := render.LoadSTL(p)
 		if err != nil {
@@ -642,6 +654,41 @@ func (ep *episode) compareBatchSTL(jr *jobRun) {
 			return
 		}
 	}
+}
+
+// asciiRoundTrip: a well-formed ASCII STL loads to the triangles it lists.
+func (ep *episode) asciiRoundTrip(jr *jobRun) Check {
+	p := jr.state.path + ".ascii.stl"
+	var b bytes.Buffer
+	g := func(v float64) string { return strconv.FormatFloat(v, 'g', -1, 64) }
+	b.WriteString("solid verif\n")
+	for _, t := range jr.state.tris {
+		n := [3]float64{0, 0, 0}
+		fmt.Fprintf(&b, " facet normal %s %s %s\n  outer loop\n", g(n[0]), g(n[1]), g(n[2]))
+		for k := 0; k < 3; k++ {
+			fmt.Fprintf(&b, "   vertex %s %s %s\n", g(t[k].X), g(t[k].Y), g(t[k].Z))
+		}
+		b.WriteString("  endloop\n endfacet\n")
+	}
+	b.WriteString("endsolid verif\n")
+	if err := os.WriteFile(p, b.Bytes(), 0o644); err != nil {
+		return bad("harness", "write ascii: %v", err)
+	}
+	mesh, err := render.LoadSTL(p)
+	if err != nil {
+		return bad("stl-ascii-load", "LoadSTL of a well-formed ASCII STL with %d facets (%d bytes): %v", len(jr.state.tris), b.Len(), err)
+	}
+	if len(mesh) != len(jr.state.tris) {
+		return bad("stl-ascii-load", "ASCII STL lists %d facets, LoadSTL returned %d", len(jr.state.tris), len(mesh))
+	}
+	for i, t := range jr.state.tris {
+		for k := 0; k < 3; k++ {
+			if f64key(t[k].X+0) != f64key(mesh[i][k].X+0) || f64key(t[k].Y+0) != f64key(mesh[i][k].Y+0) || f64key(t[k].Z+0) != f64key(mesh[i][k].Z+0) {
+				return bad("stl-ascii-load", "ASCII facet %d vertex %d: listed (%g,%g,%g), loaded (%g,%g,%g)", i, k, t[k].X, t[k].Y, t[k].Z, mesh[i][k].X, mesh[i][k].Y, mesh[i][k].Z)
+			}
+		}
+	}
+	return okCheck
 }
 
 func compareLoaded(in []*sdf.Triangle3, mesh []*sdf.Triangle3) Check {
@@ -694,6 +741,10 @@ func (ep *episode) compareBatch2(jr *jobRun) {
 	if c := st2.check(); !c.OK {
 		c.Msg = "batch writer: " + c.Msg
 		jr.res.AtReturn = &c
+	}
+	for _, n := range st2.notices {
+		n.Msg = "batch writer: " + n.Msg
+		jr.res.Notices = append(jr.res.Notices, n)
 	}
 }
 
